@@ -7,7 +7,12 @@
 
 use std::collections::{HashMap, VecDeque};
 use std::future::Future;
+use std::net::SocketAddr;
+use std::os::fd::AsRawFd;
+use std::path::PathBuf;
 use std::pin::Pin;
+use std::sync::Mutex;
+use std::sync::atomic::Ordering;
 use std::task::{Context, Poll};
 use std::time::Duration;
 
@@ -25,6 +30,9 @@ pub struct LifeComp;
 /// Type-erased operation under test. `None` = Pending.
 trait Pollable: Send {
     fn poll(&mut self, cx: &mut Context<'_>) -> Option<String>;
+    /// The scripted `drop` of the future. Everything but `ReceiveSignals` is
+    /// simply dropped; at the end of a case whatever is left is dropped plainly.
+    fn discard(self: Box<Self>) {}
 }
 
 struct FutOp<F, T> {
@@ -61,8 +69,200 @@ impl Pollable for MRead {
     }
 }
 
+/// Multishot streams other than `MultishotRead` (`poll_next` is an inherent
+/// method of each type, hence the function pointer).
+struct MIter<S: Send> {
+    it: Pin<Box<S>>,
+    next: fn(Pin<&mut S>, &mut Context<'_>) -> Poll<Option<std::io::Result<String>>>,
+}
+impl<S: Send> Pollable for MIter<S> {
+    fn poll(&mut self, cx: &mut Context<'_>) -> Option<String> {
+        match (self.next)(self.it.as_mut(), cx) {
+            Poll::Pending => None,
+            Poll::Ready(None) => Some("ready none".into()),
+            Poll::Ready(Some(Ok(v))) => Some(format!("ready ok {v}")),
+            Poll::Ready(Some(Err(e))) => Some(format!("ready err {}", err_num(&e))),
+        }
+    }
+}
+
+/// `a10::process::ReceiveSignals`: a stream that re-arms ONE single-shot
+/// operation state (`reset`) after every delivered signal. The operation model
+/// describes one operation, so the stream is observed for its first item only:
+/// after it delivered `Ok` the wrapper does not call into a10 again (a poll
+/// then is a contract violation, reported as `panic` like for any completed
+/// future). The scripted drop goes through `into_inner` (one of its two
+/// hand-written drop paths; the returned `Signals` is parked so that closing
+/// its descriptor does not take a submission slot), the drop at the end of a
+/// case through its `Drop`.
+struct SigStream {
+    it: Option<Pin<Box<a10::process::ReceiveSignals>>>,
+    delivered: bool,
+}
+impl Pollable for SigStream {
+    fn poll(&mut self, cx: &mut Context<'_>) -> Option<String> {
+        if self.delivered {
+            panic!("first item of the signal stream already delivered");
+        }
+        match self.it.as_mut().unwrap().as_mut().poll_next(cx) {
+            Poll::Pending => None,
+            Poll::Ready(None) => Some("ready none".into()),
+            Poll::Ready(Some(Ok(info))) => {
+                self.delivered = true;
+                Some(format!("ready ok {}", canon_siginfo(info)))
+            }
+            Poll::Ready(Some(Err(e))) => Some(format!("ready err {}", err_num(&e))),
+        }
+    }
+    fn discard(mut self: Box<Self>) {
+        if let Some(it) = self.it.take() {
+            // SAFETY: `ReceiveSignals` is not structurally pinned by anything the
+            // harness relies on; `into_inner` consumes it by value.
+            let rs = unsafe { Pin::into_inner_unchecked(it) };
+            let signals = rs.into_inner();
+            util::lockp(&PARK_SIGNALS).push(signals);
+        }
+    }
+}
+
+// --- results that are descriptors --------------------------------------------
+//
+// The script names a descriptor result by a small number; the simulated
+// kernel hands out a real descriptor for it and the value printed when the
+// future resolves is the script's number again. Descriptors the operations
+// return are parked until the end of the case: dropping an `AsyncFd` queues a
+// CLOSE submission, which is not part of the operation life cycle.
+
+static FDMAP: Mutex<Vec<(i32, i64)>> = Mutex::new(Vec::new());
+static PARK: Mutex<Vec<AsyncFd>> = Mutex::new(Vec::new());
+static PARK_SIGNALS: Mutex<Vec<a10::process::Signals>> = Mutex::new(Vec::new());
+
+fn canon_fd(fd: AsyncFd) -> String {
+    let raw = fd.as_fd().map(|f| f.as_raw_fd());
+    let s = match raw {
+        Some(raw) => {
+            let mut m = util::lockp(&FDMAP);
+            match m.iter().position(|(r, _)| *r == raw) {
+                Some(p) => m.remove(p).1.to_string(),
+                None => "fd".to_string(),
+            }
+        }
+        None => "direct".to_string(),
+    };
+    util::lockp(&PARK).push(fd);
+    s
+}
+
+/// The address the simulated kernel writes into address out-parameters.
+fn kernel_addr() -> SocketAddr {
+    "127.0.0.1:4660".parse().unwrap()
+}
+
+fn canon_addr(a: SocketAddr, ok: &str) -> String {
+    if a == kernel_addr() { ok.to_string() } else { format!("wrong-address:{a}") }
+}
+
+fn canon_siginfo(info: a10::process::SignalInfo) -> String {
+    if info.signal() == a10::process::Signal::USER2 && info.pid() == 4242 { "128".into() } else { "wrong-siginfo".into() }
+}
+
+/// How the completions of a kind look like (what the generator posts, what
+/// the future's output is reduced to).
+#[derive(Copy, Clone, PartialEq, Debug)]
+enum Cls {
+    /// transferred length
+    Len,
+    /// zero-copy send: length, then the notification
+    Zc,
+    /// a new descriptor
+    Fd,
+    /// 0
+    Zero,
+    /// a fixed positive value (option length, size of the signal record, number of slots)
+    Fixed(i32),
+    /// multishot: lengths with pool buffers
+    MBuf,
+    /// multishot: descriptors
+    MFd,
+    /// multishot: a fixed positive value
+    MFixed(i32),
+}
+
+#[allow(dead_code)] // `opc` documents the opcode; the model prints it (Model/Life.lean `kinds`)
+struct KindDef {
+    name: &'static str,
+    opc: &'static str,
+    cls: Cls,
+    /// the kernel writes payload bytes (data buffers)
+    reads: bool,
+}
+
+const fn kd(name: &'static str, opc: &'static str, cls: Cls, reads: bool) -> KindDef {
+    KindDef { name, opc, cls, reads }
+}
+
+const KIND_TABLE: &[KindDef] = &[
+    kd("read", "READ", Cls::Len, true),
+    kd("write", "WRITE", Cls::Len, false),
+    kd("sendzc", "SEND_ZC", Cls::Zc, false),
+    kd("mread", "READ_MULTISHOT", Cls::MBuf, true),
+    kd("readv", "READV", Cls::Len, true),
+    kd("writev", "WRITEV", Cls::Len, false),
+    kd("sendto", "SEND", Cls::Len, false),
+    kd("sendmsgzc", "SENDMSG_ZC", Cls::Zc, false),
+    kd("recvv", "RECVMSG", Cls::Len, true),
+    // 1. plain socket I/O
+    kd("recv", "RECV", Cls::Len, true),
+    kd("send", "SEND", Cls::Len, false),
+    kd("recvfrom", "RECVMSG", Cls::Len, true),
+    kd("recvfromv", "RECVMSG", Cls::Len, true),
+    kd("sendtov", "SENDMSG", Cls::Len, false),
+    kd("sendmsg", "SENDMSG", Cls::Len, false),
+    // 2. connections, names, options
+    kd("accept", "ACCEPT", Cls::Fd, false),
+    kd("maccept", "ACCEPT", Cls::MFd, false),
+    kd("mrecv", "RECV", Cls::MBuf, true),
+    kd("connect", "CONNECT", Cls::Zero, false),
+    kd("bind", "BIND", Cls::Zero, false),
+    kd("listen", "LISTEN", Cls::Zero, false),
+    kd("shutdown", "SHUTDOWN", Cls::Zero, false),
+    kd("sockname", "URING_CMD", Cls::Zero, false),
+    kd("peername", "URING_CMD", Cls::Zero, false),
+    kd("getsockopt", "URING_CMD", Cls::Fixed(4), false),
+    kd("setsockopt", "URING_CMD", Cls::Zero, false),
+    // 3. file system
+    kd("open", "OPENAT", Cls::Fd, false),
+    kd("statx", "STATX", Cls::Zero, false),
+    kd("rename", "RENAMEAT", Cls::Zero, false),
+    kd("unlink", "UNLINKAT", Cls::Zero, false),
+    kd("rmdir", "UNLINKAT", Cls::Zero, false),
+    kd("mkdir", "MKDIRAT", Cls::Zero, false),
+    kd("truncate", "FTRUNCATE", Cls::Zero, false),
+    kd("fsync", "FSYNC", Cls::Zero, false),
+    kd("fdatasync", "FSYNC", Cls::Zero, false),
+    kd("fallocate", "FALLOCATE", Cls::Zero, false),
+    kd("fadvise", "FADVISE", Cls::Zero, false),
+    kd("splice", "SPLICE", Cls::Len, false),
+    // 4. processes, signals, descriptors
+    kd("waitid", "WAITID", Cls::Zero, false),
+    kd("sigrecv", "READ", Cls::Fixed(128), true),
+    kd("sigstream", "READ", Cls::Fixed(128), true),
+    kd("pipe", "PIPE", Cls::Zero, false),
+    kd("mpoll", "POLL_ADD", Cls::MFixed(1), false),
+    kd("close", "CLOSE", Cls::Zero, false),
+    kd("todirect", "FILES_UPDATE", Cls::Fixed(1), false),
+    kd("tofd", "FIXED_FD_INSTALL", Cls::Fd, false),
+    kd("socket", "SOCKET", Cls::Fd, false),
+];
+
+fn kind_def(kind: &str) -> Option<&'static KindDef> {
+    KIND_TABLE.iter().find(|k| k.name == kind)
+}
+
 struct OpSlot {
     kind: String,
+    cls: Cls,
+    reads: bool,
     multi: bool,
     obj: Option<Box<dyn Pollable>>,
     /// address of the `Data` box (== user_data & !1)
@@ -116,24 +316,16 @@ struct LifeCase {
     poisoned: bool,
     /// outputs recorded by a `race`, replayed by the next ops: (op line, output lines)
     raced: Vec<(String, Vec<String>)>,
+    /// a direct descriptor (made by `to_direct_descriptor` before the script starts)
+    dfd: &'static AsyncFd,
+    /// second ring whose readiness `mpoll` operations wait for (made on demand)
+    other: Option<Ring>,
+    /// `Signals` the `sigrecv` futures borrow
+    signals: Vec<&'static a10::process::Signals>,
 }
 
-const KINDS: &[&str] = &["read", "write", "sendzc", "mread", "readv", "writev", "sendto", "sendmsgzc", "recvv"];
-
-fn opcode_of(kind: &str) -> &'static str {
-    match kind {
-        "read" => "READ",
-        "write" => "WRITE",
-        "sendzc" => "SEND_ZC",
-        "mread" => "READ_MULTISHOT",
-        "readv" => "READV",
-        "writev" => "WRITEV",
-        "sendto" => "SEND",
-        "sendmsgzc" => "SENDMSG_ZC",
-        "recvv" => "RECVMSG",
-        _ => "?",
-    }
-}
+/// Size of the record `signalfd(2)` returns.
+const SIGINFO_LEN: usize = 128;
 
 impl LifeCase {
     fn new(header: &str) -> LifeCase {
@@ -146,12 +338,18 @@ impl LifeCase {
         };
         let (sq_len, cq_len, sqh, cqh) = (get("sq"), get("cq"), get("sqh"), get("cqh"));
         simk::reset();
+        // One submission and one completion are used up before the script starts
+        // (see `make_direct`), so the counters start one earlier.
         simk::activate(simk::SetupCfg {
-            sq_head0: sqh,
-            cq_head0: cqh,
+            sq_head0: sqh.wrapping_sub(1),
+            cq_head0: cqh.wrapping_sub(1),
             ..Default::default()
         });
-        let ring = Ring::config()
+        simk::WRITE_OUT_PARAMS.store(true, Ordering::SeqCst);
+        simk::DEFER_CLOSE_OPS.store(true, Ordering::SeqCst);
+        track::quarantine_all(true);
+        util::lockp(&FDMAP).clear();
+        let mut ring = Ring::config()
             .with_submission_queue_size(sq_len)
             .with_completion_queue_size(cq_len)
             .build()
@@ -162,6 +360,7 @@ impl LifeCase {
         let fd: &'static AsyncFd =
             Box::leak(Box::new(unsafe { AsyncFd::from_raw_fd(raw, sq.clone()) }));
         let pool = ReadBufPool::new(sq.clone(), 64, 64).expect("pool");
+        let dfd = make_direct(&mut ring, fd, rfd);
         simk::drain_events();
         util::drain_wakes();
         track::drain_frees();
@@ -182,6 +381,9 @@ impl LifeCase {
             lost_at_drop: 0,
             poisoned: false,
             raced: Vec::new(),
+            dfd,
+            other: None,
+            signals: Vec::new(),
         }
     }
 
@@ -234,6 +436,22 @@ impl LifeCase {
             op.user_data = Some(sqe.user_data);
             op.ud_inflight = Some(sqe.user_data);
             op.state_addr = Some(addr);
+            if op.state_block.is_none() {
+                op.state_block = track::watch(addr).map(|b| b.id);
+            }
+            // Every heap region this submission hands to the kernel is watched from
+            // now on: a free / reallocation before the final completion is recorded
+            // (and the block quarantined), whatever kind of resource it is.
+            for r in simk::regions_of(&sqe) {
+                if let Some(b) = track::watch(r.addr) {
+                    if !op.res_blocks.contains(&b.id) {
+                        op.res_blocks.push(b.id);
+                    }
+                }
+                if r.block.is_some() && !op.res_addrs.contains(&(r.addr, r.len)) {
+                    op.res_addrs.push((r.addr, r.len));
+                }
+            }
             self.addr2op.insert(addr, i);
             // C09: a re-issued request is byte-identical to the previous attempt.
             let bytes = sqe.bytes();
@@ -383,18 +601,50 @@ impl LifeCase {
         }
     }
 
-    fn make_spec(&self, i: usize, res: i32, flags: u32) -> Option<PostSpec> {
+    /// The completion the simulated kernel posts for `(res, flags)` of the script:
+    /// descriptor results get a real descriptor, operations that read get payload
+    /// bytes, PIPE gets its two descriptors, FILES_UPDATE the allocated slot.
+    fn make_spec(&mut self, i: usize, res: i32, flags: u32) -> Option<PostSpec> {
         let ud = self.ops.get(i)?.ud_inflight?;
-        let kind = &self.ops[i].kind;
+        let (cls, reads) = (self.ops[i].cls, self.ops[i].reads);
+        let kind = self.ops[i].kind.clone();
         let mut spec = PostSpec::new(Target::UserData(ud), res, flags);
-        if res > 0 && (kind == "read" || kind == "mread" || kind == "readv" || kind == "recvv") {
-            spec.data = Some(vec![0xCD; res as usize]);
-            spec.select_buf = kind == "mread";
+        match cls {
+            Cls::Fd | Cls::MFd if res >= 0 && flags & CQE_F_NOTIF == 0 => {
+                let real = simk::with_ring(self.rfd, |r, _| r.fresh_fd());
+                util::lockp(&FDMAP).push((real, res as i64));
+                spec.res = real;
+            }
+            _ => {}
+        }
+        if res > 0 && reads {
+            if kind == "sigrecv" || kind == "sigstream" {
+                let mut d = vec![0u8; (res as usize).min(SIGINFO_LEN)];
+                if d.len() == SIGINFO_LEN {
+                    d[0..4].copy_from_slice(&(libc::SIGUSR2 as u32).to_ne_bytes()); // ssi_signo
+                    d[12..16].copy_from_slice(&4242u32.to_ne_bytes()); // ssi_pid
+                }
+                spec.data = Some(d);
+            } else {
+                spec.data = Some(vec![0xCD; res as usize]);
+                spec.select_buf = cls == Cls::MBuf;
+            }
+        }
+        if kind == "pipe" && res == 0 {
+            let (a, b) = simk::with_ring(self.rfd, |r, _| (r.fresh_fd(), r.fresh_fd()));
+            let mut d = a.to_ne_bytes().to_vec();
+            d.extend_from_slice(&b.to_ne_bytes());
+            spec.data = Some(d);
+        }
+        if kind == "todirect" && res > 0 {
+            spec.data = Some(1i32.to_ne_bytes().to_vec());
         }
         Some(spec)
     }
 
     fn do_post(&mut self, i: usize, res: i32, flags: u32) -> Option<bool> {
+        let ud = self.ops.get(i)?.ud_inflight?;
+        simk::with_ring(self.rfd, |r, _| r.find_inflight(&Target::UserData(ud)))?;
         let spec = self.make_spec(i, res, flags)?;
         let r = simk::with_ring(self.rfd, |r, ev| {
             r.find_inflight(&spec.target)?;
@@ -412,6 +662,7 @@ impl LifeCase {
         let fin = flags & CQE_F_MORE == 0;
         if fin && (res == -libc::EINTR || res == -libc::ECANCELED) && self.ops[i].obj.is_some() {
             self.feats.push("restart".into());
+            self.feats.push(format!("kind/{}/restart", self.ops[i].kind));
         }
         if flags & CQE_F_NOTIF != 0 {
             self.feats.push("zc-two-step".into());
@@ -503,7 +754,7 @@ impl Case for LifeCase {
         let w_bad = if rng.chance(1, 25) { 1 } else { 0 };
         match rng.weighted(&[w_new, w_poll, w_drop, w_kpost, w_rpoll, w_rdrop, w_bad]) {
             0 => {
-                let kind = *rng.pick(KINDS);
+                let kind = rng.pick(KIND_TABLE).name;
                 Some(format!("life new {} {kind}", self.ops.len()))
             }
             1 => {
@@ -543,7 +794,7 @@ impl Case for LifeCase {
                 Some(match rng.below(3) {
                     0 => format!("life poll {i} 99"),
                     1 => format!("life drop {i}"),
-                    _ => format!("life kpost {i} 1 0"),
+                    _ => format!("life kpost {i} {} 0", self.ok_value(i as usize)),
                 })
             }
         }
@@ -567,94 +818,13 @@ impl Case for LifeCase {
         match t.as_slice() {
             ["life", "new", i, kind] => {
                 let Ok(i) = i.parse::<usize>() else { return vec!["bad-op".into()] };
-                if i != self.ops.len() || !KINDS.contains(kind) {
+                let Some(def) = kind_def(kind) else { return vec!["bad-op".into()] };
+                if i != self.ops.len() {
                     return vec!["bad-op".into()];
                 }
-                let fd = self.fd;
                 let mut res_blocks = Vec::new();
                 let mut res_addrs: Vec<(usize, usize)> = Vec::new();
-                let (obj, state): (Box<dyn Pollable>, Option<usize>) = match *kind {
-                    "read" => {
-                        let buf: Vec<u8> = Vec::with_capacity(64);
-                        res_blocks.extend(track::watch(buf.as_ptr() as usize).map(|b| b.id));
-                        res_addrs.push((buf.as_ptr() as usize, buf.capacity()));
-                        let mark = track::next_id();
-                        let fut = fd.read(buf);
-                        let st = single_new_block(mark);
-                        (Box::new(FutOp { fut: Box::pin(fut), canon: |b: Vec<u8>| b.len().to_string() }), st)
-                    }
-                    "write" => {
-                        let buf: Vec<u8> = vec![0x5A; 64];
-                        res_blocks.extend(track::watch(buf.as_ptr() as usize).map(|b| b.id));
-                        res_addrs.push((buf.as_ptr() as usize, buf.capacity()));
-                        let mark = track::next_id();
-                        let fut = fd.write(buf);
-                        let st = single_new_block(mark);
-                        (Box::new(FutOp { fut: Box::pin(fut), canon: |n: usize| n.to_string() }), st)
-                    }
-                    "sendzc" => {
-                        let buf: Vec<u8> = vec![0x7E; 64];
-                        res_blocks.extend(track::watch(buf.as_ptr() as usize).map(|b| b.id));
-                        res_addrs.push((buf.as_ptr() as usize, buf.capacity()));
-                        let mark = track::next_id();
-                        let fut = fd.send(buf).zc();
-                        let st = single_new_block(mark);
-                        (Box::new(FutOp { fut: Box::pin(fut), canon: |n: usize| n.to_string() }), st)
-                    }
-                    "readv" | "recvv" => {
-                        let b0: Vec<u8> = Vec::with_capacity(32);
-                        let b1: Vec<u8> = Vec::with_capacity(32);
-                        for b in [&b0, &b1] {
-                            res_blocks.extend(track::watch(b.as_ptr() as usize).map(|b| b.id));
-                            res_addrs.push((b.as_ptr() as usize, b.capacity()));
-                        }
-                        let mark = track::next_id();
-                        if *kind == "readv" {
-                            let fut = fd.read_vectored([b0, b1]);
-                            let st = single_new_block(mark);
-                            (Box::new(FutOp { fut: Box::pin(fut), canon: |b: [Vec<u8>; 2]| (b[0].len() + b[1].len()).to_string() }), st)
-                        } else {
-                            let fut = fd.recv_vectored([b0, b1]);
-                            let st = single_new_block(mark);
-                            (Box::new(FutOp { fut: Box::pin(fut), canon: |(b, _): ([Vec<u8>; 2], i32)| (b[0].len() + b[1].len()).to_string() }), st)
-                        }
-                    }
-                    "writev" | "sendmsgzc" => {
-                        let b0: Vec<u8> = vec![0x11; 32];
-                        let b1: Vec<u8> = vec![0x22; 32];
-                        for b in [&b0, &b1] {
-                            res_blocks.extend(track::watch(b.as_ptr() as usize).map(|b| b.id));
-                            res_addrs.push((b.as_ptr() as usize, b.capacity()));
-                        }
-                        let mark = track::next_id();
-                        if *kind == "writev" {
-                            let fut = fd.write_vectored([b0, b1]);
-                            let st = single_new_block(mark);
-                            (Box::new(FutOp { fut: Box::pin(fut), canon: |n: usize| n.to_string() }), st)
-                        } else {
-                            let fut = fd.send_vectored([b0, b1]).zc();
-                            let st = single_new_block(mark);
-                            (Box::new(FutOp { fut: Box::pin(fut), canon: |n: usize| n.to_string() }), st)
-                        }
-                    }
-                    "sendto" => {
-                        let buf: Vec<u8> = vec![0x33; 64];
-                        res_blocks.extend(track::watch(buf.as_ptr() as usize).map(|b| b.id));
-                        res_addrs.push((buf.as_ptr() as usize, buf.capacity()));
-                        let addr: std::net::SocketAddr = "127.0.0.1:9".parse().unwrap();
-                        let mark = track::next_id();
-                        let fut = fd.send_to(buf, addr);
-                        let st = single_new_block(mark);
-                        (Box::new(FutOp { fut: Box::pin(fut), canon: |n: usize| n.to_string() }), st)
-                    }
-                    _ => {
-                        let pool = self.pool.as_ref().unwrap().clone();
-                        let mark = track::next_id();
-                        let it = fd.multishot_read(pool);
-                        let st = single_new_block(mark);
-                        (Box::new(MRead(Box::pin(it))), st)
-                    }
-                };
+                let (obj, state) = self.make_op(kind, &mut res_blocks, &mut res_addrs);
                 // NOTE: the pinned box of the future itself is allocated after `mark`
                 // too; `single_new_block` ran before `Box::pin`.
                 let state_block = state.and_then(|a| track::block_of(a)).map(|b| b.id);
@@ -662,9 +832,12 @@ impl Case for LifeCase {
                     track::watch(a);
                     self.addr2op.insert(a, i);
                 }
+                self.feats.push(format!("kind/{kind}"));
                 self.ops.push(OpSlot {
                     kind: kind.to_string(),
-                    multi: *kind == "mread",
+                    cls: def.cls,
+                    reads: def.reads,
+                    multi: matches!(def.cls, Cls::MBuf | Cls::MFd | Cls::MFixed(_)),
                     obj: Some(obj),
                     state_addr: state,
                     state_block,
@@ -743,6 +916,7 @@ impl Case for LifeCase {
                         if let Some(b) = bad {
                             self.fail("C02", &format!("C02/wrong-result/{kind}"), b);
                         }
+                        self.feats.push(format!("kind/{kind}/resolved"));
                         out.push(line);
                     }
                 }
@@ -778,8 +952,11 @@ impl Case for LifeCase {
                 });
                 if in_flight {
                     self.feats.push("drop-in-flight".into());
+                    self.feats.push(format!("kind/{}/drop-in-flight", self.ops[i].kind));
                 }
-                drop(obj);
+                if let Some(obj) = obj {
+                    obj.discard();
+                }
                 let mut lines = self.new_sqes(old_tail, None, Some(i));
                 for l in &lines {
                     if let Some(tg) = l.strip_prefix("cancel op") {
@@ -830,13 +1007,13 @@ impl Case for LifeCase {
                     return vec!["unsafe-state".into()];
                 }
                 let will_enter = simk::with_ring(self.rfd, |r, _| r.cq_count() == 0);
-                let mut scripted: Vec<(usize, i32, u32, u64)> = Vec::new();
+                let mut scripted: Vec<(usize, i32, u32, u64, i32)> = Vec::new();
                 if will_enter {
                     let mut specs = Vec::new();
                     for (i, res, flags) in &ps {
                         if let Some(spec) = self.make_spec(*i, *res, *flags) {
                             if let Target::UserData(ud) = spec.target {
-                                scripted.push((*i, *res, *flags, ud));
+                                scripted.push((*i, *res, *flags, ud, spec.res));
                             }
                             specs.push(spec);
                         }
@@ -856,8 +1033,8 @@ impl Case for LifeCase {
                     KEv::Posted { seq: Some(_), cqe, .. } => Some(cqe),
                     _ => None,
                 }).collect();
-                for (i, res, flags, ud) in scripted {
-                    if let Some(pos) = posted.iter().position(|c| c.user_data == ud && c.res == res) {
+                for (i, res, flags, ud, actual) in scripted {
+                    if let Some(pos) = posted.iter().position(|c| c.user_data == ud && c.res == actual) {
                         posted.remove(pos);
                         self.note_posted(i, res, flags);
                     }
@@ -915,6 +1092,11 @@ impl Case for LifeCase {
                     self.poisoned = true;
                     return vec!["unsafe-state".into()];
                 }
+                for o in self.ops.iter() {
+                    if o.ud_inflight.is_some() {
+                        self.feats.push(format!("kind/{}/ring-drop", o.kind));
+                    }
+                }
                 let ring = self.ring.take().unwrap();
                 let r = util::catch(move || drop(ring));
                 self.ring_dropped = true;
@@ -953,8 +1135,15 @@ impl Case for LifeCase {
                 std::mem::forget(o.obj.take());
             }
             std::mem::forget(self.ring.take());
+            std::mem::forget(self.other.take());
             std::mem::forget(self.pool.take());
             std::mem::forget(self.sq.take());
+            std::mem::forget(std::mem::take(&mut *util::lockp(&PARK)));
+            std::mem::forget(std::mem::take(&mut *util::lockp(&PARK_SIGNALS)));
+            util::lockp(&FDMAP).clear();
+            simk::WRITE_OUT_PARAMS.store(false, Ordering::SeqCst);
+            simk::DEFER_CLOSE_OPS.store(false, Ordering::SeqCst);
+            track::quarantine_all(false);
             simk::drain_events();
             util::drain_wakes();
             track::drain_frees();
@@ -992,17 +1181,58 @@ impl Case for LifeCase {
                 self.fail("C06", &format!("C06/state-leaked/{kind}"), format!("state of op{i} was never freed although its future and the ring were dropped"));
             }
         }
+        // C06: the resources of an operation whose state was reclaimed were dropped
+        // with it (or handed to the caller, who dropped them): no block the
+        // operation handed to the kernel is still allocated.
+        let mut res_leaks = Vec::new();
+        for (i, o) in self.ops.iter().enumerate() {
+            if o.frees >= 1 {
+                let n = o.res_blocks.iter().filter(|id| track::is_live(**id)).count();
+                if n > 0 {
+                    res_leaks.push((i, o.kind.clone(), n));
+                }
+            }
+        }
+        for (i, kind, n) in res_leaks {
+            self.fail("C06", &format!("C06/resources-leaked/{kind}"), format!("the state of op{i} was reclaimed but {n} of the memory blocks it shared with the kernel (buffers, paths, …) were never freed"));
+        }
         drop(self.pool.take());
+        if let Some(other) = self.other.take() {
+            let _ = util::catch(move || drop(other));
+        }
+        // Descriptors the operations returned, the `Signals` objects, the direct
+        // descriptor: dropped the normal way (CLOSE submission or the synchronous
+        // fallback), after everything the properties are about.
+        let parked = std::mem::take(&mut *util::lockp(&PARK));
+        let _ = util::catch(move || drop(parked));
+        let parked = std::mem::take(&mut *util::lockp(&PARK_SIGNALS));
+        let _ = util::catch(move || drop(parked));
+        for sg in std::mem::take(&mut self.signals) {
+            let _ = util::catch(move || unsafe { drop(Box::from_raw(std::ptr::from_ref(sg).cast_mut())) });
+        }
+        let dfd = self.dfd;
+        let _ = util::catch(move || unsafe { drop(Box::from_raw(std::ptr::from_ref(dfd).cast_mut())) });
         let raw = self.fd.as_fd().map(|f| std::os::fd::AsRawFd::as_raw_fd(&f));
         if let Some(raw) = raw {
             unsafe { libc::close(raw) };
         }
         unsafe { drop(Box::from_raw(std::ptr::from_ref(self.fd).cast_mut())) };
         drop(self.sq.take());
+        // Descriptors the simulated kernel handed out that nobody closed (delivered
+        // to abandoned operations, never delivered, `Close` futures): not this
+        // component's business (C07), but they must not leak into the next case.
+        let left: Vec<i32> = simk::with_sim(|s| s.rings.values_mut().flat_map(|r| std::mem::take(&mut r.issued_fds)).collect());
+        for fd in left {
+            unsafe { simk::raw_syscall(libc::SYS_close, fd as i64, 0, 0, 0, 0, 0) };
+        }
+        util::lockp(&FDMAP).clear();
+        simk::WRITE_OUT_PARAMS.store(false, Ordering::SeqCst);
+        simk::DEFER_CLOSE_OPS.store(false, Ordering::SeqCst);
         simk::drain_events();
         util::drain_wakes();
         track::drain_frees();
         simk::reset();
+        track::quarantine_all(false);
         track::release_quarantine();
         let mut features = std::mem::take(&mut self.feats);
         features.sort();
@@ -1015,6 +1245,388 @@ impl Case for LifeCase {
 fn single_new_block(mark: u64) -> Option<usize> {
     let v = track::live_since(mark - 1);
     if v.len() == 1 { Some(v[0].base) } else { None }
+}
+
+/// The operation state is the last block an a10 constructor allocates
+/// (`State::new` runs after the resources were built; checked against
+/// `user_data` at the first submission: `C01/user-data-moved`). Every block
+/// allocated since `mark` (paths, the state, …) is watched.
+fn last_new_block(mark: u64, res_blocks: &mut Vec<u64>) -> Option<usize> {
+    let v = track::live_since(mark - 1);
+    for b in &v {
+        if track::watch(b.base).is_some() {
+            res_blocks.push(b.id);
+        }
+    }
+    v.iter().max_by_key(|b| b.id).map(|b| b.base)
+}
+
+/// A direct descriptor made the public way before the script starts:
+/// `to_direct_descriptor`, the simulated kernel allocating slot 0.
+fn make_direct(ring: &mut Ring, fd: &'static AsyncFd, rfd: i32) -> &'static AsyncFd {
+    let w = util::waker(9999);
+    let mut cx = Context::from_waker(&w);
+    let mut fut = Box::pin(fd.to_direct_descriptor());
+    assert!(fut.as_mut().poll(&mut cx).is_pending(), "setup: to_direct_descriptor");
+    simk::with_ring(rfd, |r, _| {
+        let mut spec = PostSpec::new(Target::Nth(0), 1, 0);
+        spec.data = Some(0i32.to_ne_bytes().to_vec());
+        r.enter_scripts.push_back(simk::EnterScript { post: vec![spec], ..Default::default() });
+    });
+    ring.poll(Some(Duration::ZERO)).expect("setup: ring poll");
+    simk::with_ring(rfd, |r, _| r.enter_scripts.clear());
+    match fut.as_mut().poll(&mut cx) {
+        Poll::Ready(Ok(d)) => Box::leak(Box::new(d)),
+        _ => panic!("setup: no direct descriptor"),
+    }
+}
+
+fn fut_op<F, T>(fut: F, canon: fn(T) -> String) -> Box<dyn Pollable>
+where
+    F: Future<Output = std::io::Result<T>> + Send + 'static,
+    T: Send + 'static,
+{
+    Box::new(FutOp { fut: Box::pin(fut), canon })
+}
+
+fn unit0((): ()) -> String {
+    "0".into()
+}
+
+impl LifeCase {
+    /// Build the operation of `kind` through a10's public API, exactly as a user
+    /// would. Returns the object and the address of its state box.
+    fn make_op(&mut self, kind: &str, res_blocks: &mut Vec<u64>, res_addrs: &mut Vec<(usize, usize)>) -> (Box<dyn Pollable>, Option<usize>) {
+        use a10::net::option::KeepAlive;
+        use a10::process::{Signal, Signals, WaitOn};
+        let fd = self.fd;
+        let sq = self.sq.clone().unwrap();
+        let addr: SocketAddr = "127.0.0.1:9".parse().unwrap();
+        let mut watch_buf = |b: &Vec<u8>| {
+            res_blocks.extend(track::watch(b.as_ptr() as usize).map(|b| b.id));
+            res_addrs.push((b.as_ptr() as usize, b.capacity()));
+        };
+        match kind {
+            "read" => {
+                let buf: Vec<u8> = Vec::with_capacity(64);
+                watch_buf(&buf);
+                let mark = track::next_id();
+                let fut = fd.read(buf);
+                let st = single_new_block(mark);
+                (fut_op(fut, |b: Vec<u8>| b.len().to_string()), st)
+            }
+            "write" => {
+                let buf: Vec<u8> = vec![0x5A; 64];
+                watch_buf(&buf);
+                let mark = track::next_id();
+                let fut = fd.write(buf);
+                let st = single_new_block(mark);
+                (fut_op(fut, |n: usize| n.to_string()), st)
+            }
+            "sendzc" => {
+                let buf: Vec<u8> = vec![0x7E; 64];
+                watch_buf(&buf);
+                let mark = track::next_id();
+                let fut = fd.send(buf).zc();
+                let st = single_new_block(mark);
+                (fut_op(fut, |n: usize| n.to_string()), st)
+            }
+            "readv" | "recvv" | "recvfromv" => {
+                let b0: Vec<u8> = Vec::with_capacity(32);
+                let b1: Vec<u8> = Vec::with_capacity(32);
+                watch_buf(&b0);
+                watch_buf(&b1);
+                let mark = track::next_id();
+                match kind {
+                    "readv" => {
+                        let fut = fd.read_vectored([b0, b1]);
+                        let st = single_new_block(mark);
+                        (fut_op(fut, |b: [Vec<u8>; 2]| (b[0].len() + b[1].len()).to_string()), st)
+                    }
+                    "recvv" => {
+                        let fut = fd.recv_vectored([b0, b1]);
+                        let st = single_new_block(mark);
+                        (fut_op(fut, |(b, _): ([Vec<u8>; 2], i32)| (b[0].len() + b[1].len()).to_string()), st)
+                    }
+                    _ => {
+                        let fut = fd.recv_from_vectored::<[Vec<u8>; 2], SocketAddr, 2>([b0, b1]);
+                        let st = last_new_block(mark, res_blocks);
+                        (fut_op(fut, |(b, a, _): ([Vec<u8>; 2], SocketAddr, i32)| canon_addr(a, &(b[0].len() + b[1].len()).to_string())), st)
+                    }
+                }
+            }
+            "writev" | "sendmsgzc" | "sendtov" | "sendmsg" => {
+                let b0: Vec<u8> = vec![0x11; 32];
+                let b1: Vec<u8> = vec![0x22; 32];
+                watch_buf(&b0);
+                watch_buf(&b1);
+                let mark = track::next_id();
+                match kind {
+                    "writev" => {
+                        let fut = fd.write_vectored([b0, b1]);
+                        let st = single_new_block(mark);
+                        (fut_op(fut, |n: usize| n.to_string()), st)
+                    }
+                    "sendmsgzc" => {
+                        let fut = fd.send_vectored([b0, b1]).zc();
+                        let st = single_new_block(mark);
+                        (fut_op(fut, |n: usize| n.to_string()), st)
+                    }
+                    "sendtov" => {
+                        let fut = fd.send_to_vectored([b0, b1], addr);
+                        let st = last_new_block(mark, res_blocks);
+                        (fut_op(fut, |n: usize| n.to_string()), st)
+                    }
+                    _ => {
+                        let fut = fd.send_vectored([b0, b1]);
+                        let st = last_new_block(mark, res_blocks);
+                        (fut_op(fut, |n: usize| n.to_string()), st)
+                    }
+                }
+            }
+            "sendto" => {
+                let buf: Vec<u8> = vec![0x33; 64];
+                watch_buf(&buf);
+                let mark = track::next_id();
+                let fut = fd.send_to(buf, addr);
+                let st = single_new_block(mark);
+                (fut_op(fut, |n: usize| n.to_string()), st)
+            }
+            "mread" => {
+                let pool = self.pool.as_ref().unwrap().clone();
+                let mark = track::next_id();
+                let it = fd.multishot_read(pool);
+                let st = single_new_block(mark);
+                (Box::new(MRead(Box::pin(it))), st)
+            }
+            // ---- 1. plain socket I/O
+            "recv" => {
+                let buf: Vec<u8> = Vec::with_capacity(64);
+                watch_buf(&buf);
+                let mark = track::next_id();
+                let fut = fd.recv(buf);
+                let st = last_new_block(mark, res_blocks);
+                (fut_op(fut, |b: Vec<u8>| b.len().to_string()), st)
+            }
+            "send" => {
+                let buf: Vec<u8> = vec![0x44; 64];
+                watch_buf(&buf);
+                let mark = track::next_id();
+                let fut = fd.send(buf);
+                let st = last_new_block(mark, res_blocks);
+                (fut_op(fut, |n: usize| n.to_string()), st)
+            }
+            "recvfrom" => {
+                let buf: Vec<u8> = Vec::with_capacity(64);
+                watch_buf(&buf);
+                let mark = track::next_id();
+                let fut = fd.recv_from::<Vec<u8>, SocketAddr>(buf);
+                let st = last_new_block(mark, res_blocks);
+                (fut_op(fut, |(b, a, _): (Vec<u8>, SocketAddr, i32)| canon_addr(a, &b.len().to_string())), st)
+            }
+            // ---- 2. connections, names, options
+            "accept" => {
+                let mark = track::next_id();
+                let fut = fd.accept::<SocketAddr>();
+                let st = last_new_block(mark, res_blocks);
+                (fut_op(fut, |(f, a): (AsyncFd, SocketAddr)| { let n = canon_fd(f); canon_addr(a, &n) }), st)
+            }
+            "maccept" => {
+                let mark = track::next_id();
+                let it = fd.multishot_accept();
+                let st = last_new_block(mark, res_blocks);
+                (Box::new(MIter { it: Box::pin(it), next: |it, cx| it.poll_next(cx).map(|o| o.map(|r| r.map(canon_fd))) }), st)
+            }
+            "mrecv" => {
+                let pool = self.pool.as_ref().unwrap().clone();
+                let mark = track::next_id();
+                let it = fd.multishot_recv(pool);
+                let st = last_new_block(mark, res_blocks);
+                (Box::new(MIter { it: Box::pin(it), next: |it, cx| it.poll_next(cx).map(|o| o.map(|r| r.map(|b| b.len().to_string()))) }), st)
+            }
+            "connect" => {
+                let mark = track::next_id();
+                let fut = fd.connect(addr);
+                let st = last_new_block(mark, res_blocks);
+                (fut_op(fut, unit0), st)
+            }
+            "bind" => {
+                let mark = track::next_id();
+                let fut = fd.bind(addr);
+                let st = last_new_block(mark, res_blocks);
+                (fut_op(fut, unit0), st)
+            }
+            "listen" => {
+                let mark = track::next_id();
+                let fut = fd.listen(16);
+                let st = last_new_block(mark, res_blocks);
+                (fut_op(fut, unit0), st)
+            }
+            "shutdown" => {
+                let mark = track::next_id();
+                let fut = fd.shutdown(std::net::Shutdown::Both);
+                let st = last_new_block(mark, res_blocks);
+                (fut_op(fut, unit0), st)
+            }
+            "sockname" | "peername" => {
+                let mark = track::next_id();
+                let fut = if kind == "sockname" { fd.local_addr::<SocketAddr>() } else { fd.peer_addr::<SocketAddr>() };
+                let st = last_new_block(mark, res_blocks);
+                (fut_op(fut, |a: SocketAddr| canon_addr(a, "0")), st)
+            }
+            "getsockopt" => {
+                let mark = track::next_id();
+                let fut = fd.socket_option::<KeepAlive>();
+                let st = last_new_block(mark, res_blocks);
+                (fut_op(fut, |on: bool| if on { "4".to_string() } else { "wrong-option-value".to_string() }), st)
+            }
+            "setsockopt" => {
+                let mark = track::next_id();
+                let fut = fd.set_socket_option::<KeepAlive>(true);
+                let st = last_new_block(mark, res_blocks);
+                (fut_op(fut, unit0), st)
+            }
+            // ---- 3. file system
+            "open" => {
+                let path = PathBuf::from("/tmp/a10-verif-life/some-file-to-open");
+                let mark = track::next_id();
+                let fut = a10::fs::open_file(sq, path);
+                let st = last_new_block(mark, res_blocks);
+                (fut_op(fut, canon_fd), st)
+            }
+            "statx" => {
+                let mark = track::next_id();
+                let fut = fd.metadata();
+                let st = last_new_block(mark, res_blocks);
+                (fut_op(fut, |m: a10::fs::Metadata| if m.len() == 1234 && m.is_file() { "0".to_string() } else { "wrong-metadata".to_string() }), st)
+            }
+            "rename" => {
+                let from = PathBuf::from("/tmp/a10-verif-life/rename-from");
+                let to = PathBuf::from("/tmp/a10-verif-life/rename-to-a-longer-name");
+                let mark = track::next_id();
+                let fut = a10::fs::rename(sq, from, to);
+                let st = last_new_block(mark, res_blocks);
+                (fut_op(fut, unit0), st)
+            }
+            "unlink" | "rmdir" | "mkdir" => {
+                let path = PathBuf::from("/tmp/a10-verif-life/some-directory-entry");
+                let mark = track::next_id();
+                match kind {
+                    "unlink" => {
+                        let fut = a10::fs::remove_file(sq, path);
+                        let st = last_new_block(mark, res_blocks);
+                        (fut_op(fut, unit0), st)
+                    }
+                    "rmdir" => {
+                        let fut = a10::fs::remove_dir(sq, path);
+                        let st = last_new_block(mark, res_blocks);
+                        (fut_op(fut, unit0), st)
+                    }
+                    _ => {
+                        let fut = a10::fs::create_dir(sq, path);
+                        let st = last_new_block(mark, res_blocks);
+                        (fut_op(fut, unit0), st)
+                    }
+                }
+            }
+            "truncate" => {
+                let mark = track::next_id();
+                let fut = fd.truncate(4096);
+                let st = last_new_block(mark, res_blocks);
+                (fut_op(fut, unit0), st)
+            }
+            "fsync" | "fdatasync" => {
+                let mark = track::next_id();
+                let fut = if kind == "fsync" { fd.sync_all() } else { fd.sync_data() };
+                let st = last_new_block(mark, res_blocks);
+                (fut_op(fut, unit0), st)
+            }
+            "fallocate" => {
+                let mark = track::next_id();
+                let fut = fd.allocate(0, 4096);
+                let st = last_new_block(mark, res_blocks);
+                (fut_op(fut, unit0), st)
+            }
+            "fadvise" => {
+                let mark = track::next_id();
+                let fut = fd.advise(0, 0, a10::fs::AdviseFlag::SEQUENTIAL);
+                let st = last_new_block(mark, res_blocks);
+                (fut_op(fut, unit0), st)
+            }
+            "splice" => {
+                let target = fd.as_fd().expect("regular descriptor");
+                let mark = track::next_id();
+                let fut = fd.splice_to(target, 32);
+                let st = last_new_block(mark, res_blocks);
+                (fut_op(fut, |n: usize| n.to_string()), st)
+            }
+            // ---- 4. processes, signals, descriptors
+            "waitid" => {
+                let mark = track::next_id();
+                let fut = a10::process::wait(sq, WaitOn::Process(4242));
+                let st = last_new_block(mark, res_blocks);
+                (fut_op(fut, |w: a10::process::WaitInfo| if w.pid() == 4242 { "0".to_string() } else { "wrong-wait-info".to_string() }), st)
+            }
+            "sigrecv" => {
+                let signals: &'static Signals = Box::leak(Box::new(Signals::from_signals(sq, [Signal::USER2]).expect("signalfd")));
+                self.signals.push(signals);
+                let mark = track::next_id();
+                let fut = signals.receive();
+                let st = last_new_block(mark, res_blocks);
+                (fut_op(fut, canon_siginfo), st)
+            }
+            "sigstream" => {
+                let signals = Signals::from_signals(sq, [Signal::USER2]).expect("signalfd");
+                let mark = track::next_id();
+                let it = signals.receive_signals();
+                let st = last_new_block(mark, res_blocks);
+                (Box::new(SigStream { it: Some(Box::pin(it)), delivered: false }), st)
+            }
+            "pipe" => {
+                let mark = track::next_id();
+                let fut = a10::pipe::pipe(sq);
+                let st = last_new_block(mark, res_blocks);
+                (fut_op(fut, |fds: [AsyncFd; 2]| { util::lockp(&PARK).extend(fds); "0".to_string() }), st)
+            }
+            "mpoll" => {
+                if self.other.is_none() {
+                    self.other = Some(Ring::config().with_submission_queue_size(2).build().expect("second ring"));
+                    simk::drain_events();
+                }
+                let mark = track::next_id();
+                let it = self.other.as_ref().unwrap().pollable(sq);
+                let st = last_new_block(mark, res_blocks);
+                (Box::new(MIter { it: Box::pin(it), next: |it, cx| it.poll_next(cx).map(|o| o.map(|r| r.map(|()| "1".to_string()))) }), st)
+            }
+            "close" => {
+                let raw = simk::with_ring(self.rfd, |r, _| r.fresh_fd());
+                let afd = unsafe { AsyncFd::from_raw_fd(raw, sq) };
+                let mark = track::next_id();
+                let fut = afd.close();
+                let st = last_new_block(mark, res_blocks);
+                (fut_op(fut, unit0), st)
+            }
+            "todirect" => {
+                let mark = track::next_id();
+                let fut = fd.to_direct_descriptor();
+                let st = last_new_block(mark, res_blocks);
+                (fut_op(fut, |f: AsyncFd| { let _ = canon_fd(f); "1".to_string() }), st)
+            }
+            "tofd" => {
+                let mark = track::next_id();
+                let fut = self.dfd.to_file_descriptor();
+                let st = last_new_block(mark, res_blocks);
+                (fut_op(fut, canon_fd), st)
+            }
+            "socket" => {
+                let mark = track::next_id();
+                let fut = a10::net::socket(sq, a10::net::Domain::IPV4, a10::net::Type::STREAM, None);
+                let st = last_new_block(mark, res_blocks);
+                (fut_op(fut, canon_fd), st)
+            }
+            other => unreachable!("kind {other} is in KIND_TABLE but has no constructor"),
+        }
+    }
 }
 
 impl LifeCase {
@@ -1031,7 +1643,7 @@ impl LifeCase {
         let ta = sched::spawn(move || {
             let mut obj = util::lockp(&a_slot).take().unwrap();
             if is_drop {
-                drop(obj);
+                obj.discard();
                 "dropped".to_string()
             } else {
                 let waker = util::waker(w);
@@ -1110,6 +1722,9 @@ impl LifeCase {
         let a_op: String;
         if is_drop {
             self.ops[i].dropped_running = self.ops[i].ud_inflight.is_some();
+            if self.ops[i].dropped_running {
+                self.feats.push(format!("kind/{}/drop-in-flight", self.ops[i].kind));
+            }
             for l in &a_sqes {
                 if let Some(tg) = l.strip_prefix("cancel op") {
                     if tg.parse::<usize>().ok() != Some(i) {
@@ -1187,9 +1802,10 @@ impl LifeCase {
             op.ud_inflight.and_then(|ud| r.inflight.iter().find(|x| x.sqe.user_data == ud).map(|x| x.posted)).unwrap_or(0)
         });
         let errs = [-libc::EINTR, -libc::ECANCELED, -libc::EIO, -libc::EAGAIN, -libc::EPIPE];
+        let merrs = [-libc::ECANCELED, -libc::EINTR, -libc::ENOBUFS, -libc::EIO];
         let small = |rng: &mut Rng| rng.range(1, 64) as i32;
-        match op.kind.as_str() {
-            "sendzc" | "sendmsgzc" => {
+        match op.cls {
+            Cls::Zc => {
                 if posted >= 1 {
                     (0, CQE_F_NOTIF)
                 } else {
@@ -1200,17 +1816,49 @@ impl LifeCase {
                     }
                 }
             }
-            "mread" => match rng.weighted(&[8, 2, 2, 1]) {
+            Cls::MBuf => match rng.weighted(&[8, 2, 2, 1]) {
                 0 => (small(rng), CQE_F_MORE),
                 1 => (0, 0),
-                2 => (*rng.pick(&[-libc::ECANCELED, -libc::EINTR, -libc::ENOBUFS, -libc::EIO]), 0),
+                2 => (*rng.pick(&merrs), 0),
                 _ => (small(rng), 0),
             },
-            _ => match rng.weighted(&[7, 1, 3]) {
+            Cls::MFd => match rng.weighted(&[8, 3, 1]) {
+                0 => (small(rng), CQE_F_MORE),
+                1 => (*rng.pick(&merrs), 0),
+                _ => (small(rng), 0),
+            },
+            Cls::MFixed(v) => match rng.weighted(&[8, 3, 1]) {
+                0 => (v, CQE_F_MORE),
+                1 => (*rng.pick(&merrs), 0),
+                _ => (v, 0),
+            },
+            Cls::Len => match rng.weighted(&[7, 1, 3]) {
                 0 => (small(rng), 0),
                 1 => (0, 0),
                 _ => (*rng.pick(&errs), 0),
             },
+            Cls::Fd => match rng.weighted(&[7, 3]) {
+                0 => (small(rng), 0),
+                _ => (*rng.pick(&errs), 0),
+            },
+            Cls::Zero => match rng.weighted(&[7, 3]) {
+                0 => (0, 0),
+                _ => (*rng.pick(&errs), 0),
+            },
+            Cls::Fixed(v) => match rng.weighted(&[7, 3]) {
+                0 => (v, 0),
+                _ => (*rng.pick(&errs), 0),
+            },
+        }
+    }
+
+    /// A successful result operation `i` may legitimately complete with (the
+    /// kernel never answers a `connect` with 1, nor a signalfd read with 5).
+    fn ok_value(&self, i: usize) -> i32 {
+        match self.ops.get(i).map(|o| o.cls) {
+            Some(Cls::Zero) => 0,
+            Some(Cls::Fixed(v)) | Some(Cls::MFixed(v)) => v,
+            _ => 1,
         }
     }
 }
@@ -1220,7 +1868,7 @@ impl Comp for LifeComp {
         "life"
     }
     fn rule(&self) -> String {
-        "each case = a random script of ≤ 40 ops over ≤ 5 concurrent real operations (read, write, zero-copy send, multishot read) on a ring with sq ∈ {1,2,4}, cq ∈ {2,4,8} and random initial 32-bit counters (0, 2^31, 2^32-k): new/poll(with same or replaced waker)/drop/kpost(any outcome incl. EINTR/ECANCELED, F_MORE, F_NOTIF)/rpoll(with completions posted during enter)/rdrop + a malformed stream; non-trivial = the case drops a future while its submission is in flight, restarts after EINTR/ECANCELED, completes operations out of submission order, splits a multishot batch across polls, goes through the zero-copy two-step, or hits a full submission queue; distinct = distinct op scripts".into()
+        format!("each case = a random script of ≤ 40 ops over ≤ 5 concurrent real operations, each of one of {} kinds built through a10's public API ({}) on a ring with sq ∈ {{1,2,4}}, cq ∈ {{2,4,8}} and random initial 32-bit counters (0, 2^31, 2^32-k): new/poll(with same or replaced waker)/drop/kpost(kind-appropriate result: length, descriptor, 0 or the fixed size; any errno incl. EINTR/ECANCELED; F_MORE, F_NOTIF)/rpoll(with completions posted during enter)/rdrop/race + a malformed stream; every heap region a submission hands to the kernel (decoded per opcode: buffers, iovec arrays, msghdr, address storage + length, paths, statx buffer, siginfo, option value, pipe descriptors) is watched by the tracking allocator, every freed block is quarantined for the duration of the case; features kind/<k>[/resolved|/drop-in-flight|/restart|/ring-drop] count the cases per kind; non-trivial = the case drops a future while its submission is in flight, restarts after EINTR/ECANCELED, completes operations out of submission order, splits a multishot batch across polls, goes through the zero-copy two-step, hits a full submission queue, or races a drop/poll against completion processing; distinct = distinct op scripts", KIND_TABLE.len(), KIND_TABLE.iter().map(|k| k.name).collect::<Vec<_>>().join(", "))
     }
     fn gen_header(&mut self, rng: &mut Rng, id: u64, _tier: &str) -> String {
         let sq = *rng.pick(&[1u32, 2, 2, 4]);
